@@ -132,7 +132,7 @@ Lemma deep_clone_wf : forall fuel h r h' r', wfheap h -> wfref h r -> deep_clone
   wfgrow h h' /\ wfref h' r'.
 Proof.
   unfold deep_clone. intros fuel h r h' r' W Wr H.
-  destruct (map_tree_wf _ lf_copy_ok fuel false false _ _ _ _ _ W Wr H) as [X [W' R']].
+  destruct (map_tree_wf _ lf_copy_ok fuel false false false _ _ _ _ _ W Wr H) as [X [W' R']].
   split; [split; [exact W'|now apply heap_ext_grow]|exact R'].
 Qed.
 
@@ -211,11 +211,11 @@ Proof.
   apply wfst_push; auto. split; auto. cbn. rewrite app_length. lia.
 Qed.
 
-Lemma map_tree_wfst : forall s leaff fuel lk fe d h1 x, lf_ok leaff -> wfst s -> wfref (hp s) d ->
-  map_tree fuel lk fe leaff (hp s) d [] = Some (h1, x) -> wfst (push s h1 x).
+Lemma map_tree_wfst : forall s leaff fuel lk ln fe d h1 x, lf_ok leaff -> wfst s -> wfref (hp s) d ->
+  map_tree fuel lk ln fe leaff (hp s) d [] = Some (h1, x) -> wfst (push s h1 x).
 Proof.
-  intros s leaff fuel lk fe d h1 x Hl Ws Wd H.
-  destruct (map_tree_wf _ Hl fuel lk fe _ _ _ _ _ (proj1 Ws) Wd H) as [X [W1 R1]].
+  intros s leaff fuel lk ln fe d h1 x Hl Ws Wd H.
+  destruct (map_tree_wf _ Hl fuel lk ln fe _ _ _ _ _ (proj1 Ws) Wd H) as [X [W1 R1]].
   apply wfst_push; auto. split; auto. now apply heap_ext_grow.
 Qed.
 
@@ -295,7 +295,7 @@ Proof.
   - (* views *)
     destruct i; cbn in Ec; try discriminate; try (destruct inpl; discriminate); unfold step; cbv zeta.
     + destruct (reg s r) as [d|] eqn:Er; [|exact Ws].
-      match goal with |- context [map_tree ?a ?b ?c ?d ?e ?f ?g] => destruct (map_tree a b c d e f g) as [[h1 x]|] eqn:E end; [|exact Ws].
+      match goal with |- context [map_tree ?a ?b ?c ?c2 ?d ?e ?f ?g] => destruct (map_tree a b c c2 d e f g) as [[h1 x]|] eqn:E end; [|exact Ws].
       cbn. eapply map_tree_wfst; [apply lf_sub_ok|exact Ws|eapply reg_wf; eauto|exact E].
     + (* ISelect *)
       destruct (reg s r) as [[v0|n]|] eqn:Er; try exact Ws. destruct (get_node (hp s) n) as [nd|] eqn:En; [|exact Ws].
@@ -316,7 +316,7 @@ Proof.
       apply (alloc_wfst s (mkNode _ false) Ws). cbn. intros k x Hi. apply filter_In in Hi.
       eapply get_node_In_wf; [apply Ws|exact En|apply Hi].
     + destruct (reg s r) as [d|] eqn:Er; [|exact Ws].
-      match goal with |- context [map_tree ?a ?b ?c ?d ?e ?f ?g] => destruct (map_tree a b c d e f g) as [[h1 x]|] eqn:E end; [|exact Ws].
+      match goal with |- context [map_tree ?a ?b ?c ?c2 ?d ?e ?f ?g] => destruct (map_tree a b c c2 d e f g) as [[h1 x]|] eqn:E end; [|exact Ws].
       cbn. eapply map_tree_wfst; [apply lf_same_ok|exact Ws|eapply reg_wf; eauto|exact E].
     + (* IFlatten *)
       destruct (reg s r) as [d|] eqn:Er; [|exact Ws]. destruct (leaves_of (hp s) d) as [ls|]; [|exact Ws]. cbn.
@@ -324,23 +324,23 @@ Proof.
   - (* copies *)
     destruct i; cbn in Ec; try discriminate; try (destruct inpl; discriminate); unfold step; cbv zeta.
     + destruct (reg s r) as [d|] eqn:Er; [|exact Ws].
-      match goal with |- context [map_tree ?a ?b ?c ?d ?e ?f ?g] => destruct (map_tree a b c d e f g) as [[h1 x]|] eqn:E end; [|exact Ws].
+      match goal with |- context [map_tree ?a ?b ?c ?c2 ?d ?e ?f ?g] => destruct (map_tree a b c c2 d e f g) as [[h1 x]|] eqn:E end; [|exact Ws].
       cbn. eapply map_tree_wfst; [apply lf_copy_ok|exact Ws|eapply reg_wf; eauto|exact E].
     + destruct (reg s r) as [d|] eqn:Er; [|exact Ws].
-      match goal with |- context [map_tree ?a ?b ?c ?d ?e ?f ?g] => destruct (map_tree a b c d e f g) as [[h1 x]|] eqn:E end; [|exact Ws].
+      match goal with |- context [map_tree ?a ?b ?c ?c2 ?d ?e ?f ?g] => destruct (map_tree a b c c2 d e f g) as [[h1 x]|] eqn:E end; [|exact Ws].
       cbn. eapply map_tree_wfst; [apply lf_gather_ok|exact Ws|eapply reg_wf; eauto|exact E].
     + destruct (reg s r) as [d|] eqn:Er; [|exact Ws].
-      match goal with |- context [map_tree ?a ?b ?c ?d ?e ?f ?g] => destruct (map_tree a b c d e f g) as [[h1 x]|] eqn:E end; [|exact Ws].
+      match goal with |- context [map_tree ?a ?b ?c ?c2 ?d ?e ?f ?g] => destruct (map_tree a b c c2 d e f g) as [[h1 x]|] eqn:E end; [|exact Ws].
       cbn. eapply map_tree_wfst; [apply lf_un_ok|exact Ws|eapply reg_wf; eauto|exact E].
     + destruct (reg s r) as [d|] eqn:Er; [|exact Ws]. destruct (reg s src) as [o|] eqn:Eo; [|exact Ws].
       destruct (leaves_of (hp s) d) as [ls|]; [|exact Ws]. destruct (leaves_of (hp s) o) as [lo|]; [|exact Ws].
       destruct (pair_all ls lo); [|exact Ws].
-      match goal with |- context [map_tree ?a ?b ?c ?d ?e ?f ?g] => destruct (map_tree a b c d e f g) as [[h1 x]|] eqn:E end; [|exact Ws].
+      match goal with |- context [map_tree ?a ?b ?c ?c2 ?d ?e ?f ?g] => destruct (map_tree a b c c2 d e f g) as [[h1 x]|] eqn:E end; [|exact Ws].
       cbn. eapply map_tree_wfst; [apply lf_bin_ok|exact Ws|exact (reg_wf s r d Ws Er)|exact E].
   - (* contiguous *)
     destruct i; cbn in Ec; try discriminate; try (destruct inpl; discriminate); unfold step; cbv zeta.
     destruct (reg s r) as [d|] eqn:Er; [|exact Ws].
-    match goal with |- context [map_tree ?a ?b ?c ?d ?e ?f ?g] => destruct (map_tree a b c d e f g) as [[h1 x]|] eqn:E end; [|exact Ws].
+    match goal with |- context [map_tree ?a ?b ?c ?c2 ?d ?e ?f ?g] => destruct (map_tree a b c c2 d e f g) as [[h1 x]|] eqn:E end; [|exact Ws].
     cbn. eapply map_tree_wfst; [apply lf_contig_ok|exact Ws|eapply reg_wf; eauto|exact E].
 Qed.
 
